@@ -80,7 +80,7 @@ def expected_ids_by_std(tr, kind, op, sid, tid, aid):
     """(manager the target must hold, manager the source must hold or 'null') after `op` by the std rules
     (native momo containers: the manager always travels with the contents; copies take a copy of the source's)."""
     ca, ma, sw, em = tr_bits(tr)
-    if op in ('none',) or op.startswith('self'): return ('-', str(sid))
+    if op in ('none', 'copyfail') or op.startswith('self'): return ('-', str(sid))
     if tr == '8': return ('0', 'null' if source_moved_from_by_std(tr, kind, op, sid, tid, aid) else '0')
     s_after = 'null' if source_moved_from_by_std(tr, kind, op, sid, tid, aid) else str(sid)
     if op == 'merge': return (str(tid), str(sid))
@@ -171,6 +171,13 @@ def gen_cases(ctx, scale):
                     # reuse = the source is refilled after the merge (its pools gave their buffers away) and outlives the target
                     for post in ('none', 'clear', 'reuse'):
                         add('N', kind, 'merge', ss, tsx, ids, post)
+    # copy construction under allocation refusal at every position (delegating constructors: catch + destructor)
+    for tr in NATIVE_TOKENS:
+        if only is not None and tr not in only: continue
+        for kind in (NATIVE if tr == 'N' else CATEGORY_KINDS):
+            for ss in states_for(kind, 's'):
+                if ss[0] in 'gh': continue          # the refusal counter would interfere with building these states
+                add(tr, kind, 'copyfail', ss, 'e', (1, 2, 3), 'none')
     # dedupe keeping order
     seen = set(); out = []
     for c in cases:
@@ -657,6 +664,126 @@ def gen_stdish_decisions(ctx):
         return False
 
 
+def gen_pvassign_table(ctx):
+    """T-gen (AST facts) for MemManagerStd<A>::operator=(MemManagerStd&&): for each of the 16 allocator types
+    C14B<int, POCCA, POCMA, POCS, NMA> of inst_stdish.cpp, the pvAssign overload clang's overload resolution chose (identified by
+    its body: move assignment / copy assignment through a const reference / iter_swap), or ADisabled when operator= is not
+    instantiable (is_nothrow_move_assignable<MemManagerStd<A>> false).  Written to coq/Gen_PvAssignTable.v."""
+    sys.path.insert(0, os.path.join(ctx.root, 'tools'))
+    import cxx2coq, json as _json
+    out = os.path.join(ctx.cdir, 'Gen_PvAssignTable.v')
+    try:
+        cfg = {'tu': os.path.join(ctx.pdir, 'inst_stdish.cpp'), 'filter': 'MemManagerStd', 'class': 'MemManagerStd',
+               'includes': [os.path.join(ctx.repo, 'include')]}
+        objs = cxx2coq.load_objs(cxx2coq.dump_ast(cfg, ctx.repo))
+        rows = {}
+        for o in objs:
+            if o['kind'] != 'ClassTemplateDecl': continue
+            for sp in o.get('inner', []):
+                if sp.get('kind') != 'ClassTemplateSpecializationDecl' or sp.get('name') != 'MemManagerStd': continue
+                targ = [a for a in sp['inner'] if a.get('kind') == 'TemplateArgument']
+                tn = targ[0].get('type', {}).get('qualType', '') if targ else ''
+                m = re.match(r'C14B<int, (true|false), (true|false), (true|false), (true|false)>', tn)
+                if not m: continue
+                pv = {}; chosen = []
+                def walk(n):
+                    if not isinstance(n, dict): return
+                    if n.get('kind') == 'CXXMethodDecl' and n.get('name') == 'pvAssign':
+                        body = [y for y in n.get('inner', []) if y.get('kind') == 'CompoundStmt']
+                        if body:
+                            b = _json.dumps(body[0])
+                            pv[n['id']] = 'ASwap' if 'iter_swap' in b else ('ACopy' if 'CXXStaticCastExpr' in b and 'const' in b else 'AMove')
+                    if n.get('kind') == 'CXXMethodDecl' and n.get('name') == 'operator=' and any(y.get('kind') == 'CompoundStmt' for y in n.get('inner', [])):
+                        chosen.extend(re.findall(r'"referencedDecl": \{"id": "(0x[0-9a-f]+)", "kind": "CXXMethodDecl", "name": "pvAssign"', _json.dumps(n)))
+                    for c in n.get('inner', []) or []: walk(c)
+                walk(sp)
+                kinds = sorted(set(pv.get(i, '?') for i in chosen))
+                if len(kinds) > 1 or '?' in kinds: raise cxx2coq.TranslationError('ambiguous pvAssign for ' + tn)
+                rows[tuple(x == 'true' for x in m.groups())] = kinds[0] if kinds else 'ADisabled'
+        if len(rows) != 16:
+            raise cxx2coq.TranslationError('%d of 16 MemManagerStd<C14B<...>> specializations found' % len(rows))
+        b = lambda x: 'true' if x else 'false'
+        txt = ('(* GENERATED by props/C14/prop.py (gen_pvassign_table) from the clang AST of inst_stdish.cpp -- do not edit *)\n'
+               'From Coq Require Import List Bool.\nFrom C14 Require Import PropagationModel.\nImport ListNotations.\n\n'
+               '(* ((POCCA, POCMA, POCS, nothrow-move-assignable), pvAssign overload chosen by MemManagerStd::operator=) *)\n'
+               'Definition pvassign_table : list (bool * bool * bool * bool * assign_kind) :=\n  [' +
+               ';\n   '.join('(%s, %s, %s, %s, %s)' % (b(k[0]), b(k[1]), b(k[2]), b(k[3]), rows[k]) for k in sorted(rows)) + '].\n')
+        if not os.path.exists(out) or open(out).read() != txt: open(out, 'w').write(txt)
+        ctx.tie_obligations.append({'name': 'translate Gen_PvAssignTable (overload chosen by MemManagerStd::operator= for 16 allocator types)', 'ok': True})
+        return True
+    except Exception as e:
+        if os.path.exists(out): os.remove(out)
+        ctx.tie_obligations.append({'name': 'translate Gen_PvAssignTable', 'ok': False, 'error': str(e)[:400]})
+        return False
+
+
+def gen_ctor_catch_facts(ctx):
+    """T-gen (AST facts): the catch blocks of the copying / initializer-list constructors of HashSet, TreeSet, HashMultiMap and of
+    DataTable::pvFill (the body of the DataTable copy constructor), as lists of steps, and whether the constructor DELEGATES to
+    another constructor (then the destructor also runs after the exception: 806b9fe, 84c9298, 91ea186).  coq/Gen_CtorCatch.v."""
+    sys.path.insert(0, os.path.join(ctx.root, 'tools'))
+    import cxx2coq, json as _json
+    out = os.path.join(ctx.cdir, 'Gen_CtorCatch.v')
+    try:
+        lines = ['(* GENERATED by props/C14/prop.py (gen_ctor_catch_facts) from the clang AST of inst.cpp -- do not edit *)',
+                 'From Coq Require Import List String.', 'Import ListNotations.', 'Local Open Scope string_scope.', '']
+        def step(st):
+            st = cxx2coq.skip_wrappers(st)
+            k = st['kind']
+            if k == 'CXXThrowExpr': return 'throw'
+            if k == 'BinaryOperator' and st.get('opcode') == '=':
+                l = cxx2coq.skip_wrappers(st['inner'][0]); r = _json.dumps(st['inner'][1])
+                return '%s := %s' % (l.get('name', '?'), 'null' if 'CXXNullPtrLiteralExpr' in r else '?')
+            if k in ('CallExpr', 'CXXMemberCallExpr'):
+                c = cxx2coq.skip_wrappers(st['inner'][0])
+                while c['kind'] == 'ImplicitCastExpr': c = cxx2coq.skip_wrappers(c['inner'][0])
+                nm = c.get('name') or (c.get('referencedDecl') or {}).get('name') or '?'
+                obj = ''
+                if c.get('kind') == 'MemberExpr' and c.get('inner'):
+                    o = cxx2coq.skip_wrappers(c['inner'][0])
+                    if o.get('kind') == 'MemberExpr': obj = o.get('name', '') + '.'
+                return obj + nm
+            return k
+        def catches(d):
+            acc = []
+            def walk(n, depth):
+                if not isinstance(n, dict): return
+                if n.get('kind') == 'CXXCatchStmt':
+                    comp = [x for x in n.get('inner', []) if isinstance(x, dict) and x.get('kind') == 'CompoundStmt']
+                    acc.append((depth, [step(x) for x in (comp[0].get('inner', []) if comp else [])]))
+                for c in n.get('inner', []) or []: walk(c, depth + 1)
+            walk(d, 0)
+            return acc
+        def delegates(d):
+            return any(x.get('kind') == 'CXXCtorInitializer' and 'anyInit' not in x and 'baseInit' not in x for x in d.get('inner', []))
+        for cls, tag in (('HashSet', 'hash'), ('TreeSet', 'tree'), ('HashMultiMap', 'multi')):
+            cfg = {'tu': os.path.join(ctx.pdir, 'inst.cpp'), 'filter': cls, 'class': cls, 'includes': [os.path.join(ctx.repo, 'include')],
+                   'spec_with_method': 'Swap'}
+            spec = cxx2coq.find_spec(cxx2coq.load_objs(cxx2coq.dump_ast(cfg, ctx.repo)), cfg)
+            ds = [d for d in cxx2coq.method_decls(spec, cls) if re.search(r'\(const momo::%s<[^()]*> &, ' % cls, d['type']['qualType']) and catches(d)]
+            if len(ds) != 1: raise cxx2coq.TranslationError('%s copy constructor with manager: %d candidates' % (cls, len(ds)))
+            c = catches(ds[0])
+            lines.append('Definition %s_copy_ctor_catch : list string := [%s].' % (tag, '; '.join('"%s"' % x for x in c[-1][1])))
+            lines.append('Definition %s_copy_ctor_delegates : bool := %s.' % (tag, 'true' if delegates(ds[0]) else 'false'))
+        cfg = {'tu': os.path.join(ctx.pdir, 'inst.cpp'), 'filter': 'DataTable', 'class': 'DataTable', 'includes': [os.path.join(ctx.repo, 'include')],
+               'spec_with_method': 'Swap'}
+        spec = cxx2coq.find_spec(cxx2coq.load_objs(cxx2coq.dump_ast(cfg, ctx.repo)), cfg)
+        ds = [d for d in cxx2coq.method_decls(spec, 'pvFill') if catches(d)]
+        if not ds: raise cxx2coq.TranslationError('DataTable::pvFill not instantiated')
+        c = sorted(catches(ds[0]))          # the outermost catch has the smallest depth
+        lines.append('Definition table_fill_outer_catch : list string := [%s].' % '; '.join('"%s"' % x for x in c[0][1]))
+        ds = [d for d in cxx2coq.method_decls(spec, 'DataTable') if 'RowFilter' in _json.dumps(d)[:4000] or 'pvFill' in _json.dumps(d)]
+        lines.append('Definition table_copy_ctor_delegates : bool := %s.' % ('true' if any(delegates(d) for d in ds) else 'false'))
+        txt = '\n'.join(lines) + '\n'
+        if not os.path.exists(out) or open(out).read() != txt: open(out, 'w').write(txt)
+        ctx.tie_obligations.append({'name': 'translate Gen_CtorCatch (catch blocks of the copying constructors)', 'ok': True})
+        return True
+    except Exception as e:
+        if os.path.exists(out): os.remove(out)
+        ctx.tie_obligations.append({'name': 'translate Gen_CtorCatch', 'ok': False, 'error': str(e)[:400]})
+        return False
+
+
 def run(ctx):
     scale = 1 if ctx.quick() else 4
     ctx.trusted += ['tools/cxx2coq.py + clang 14 JSON AST (Clear / pvDestroy of TreeSet, HashSet, HashMultiMap, DataTable; SetCrew::pvIsNull; crew accessor contract)',
@@ -675,6 +802,10 @@ def run(ctx):
         ctx.stage('regen', False, 'assignment shapes extraction failed')
     if not gen_stdish_decisions(ctx):
         ctx.stage('regen', False, 'stdish decision rules extraction failed')
+    if not gen_pvassign_table(ctx):
+        ctx.stage('regen', False, 'pvAssign overload table extraction failed')
+    if not gen_ctor_catch_facts(ctx):
+        ctx.stage('regen', False, 'constructor catch facts extraction failed')
     ctx.prove()
     ok_build = build_binaries(ctx)
     cases = gen_cases(ctx, scale)
